@@ -329,7 +329,7 @@ func main() {
 	maxN := 40
 	variants := 1
 	if run.Thorough() {
-		variants = 3
+		variants = 2
 	}
 	variants *= run.Scale
 	// quick tier: every single mutation up to fullN transactions, sampled positions above
